@@ -251,6 +251,45 @@ def check(chk: Check) -> None:
                 chk.require(good, R4, cons, '%s:%d' % (g.module.rel, comma.line),
                             'accepted: %s' % ' '.join(toks) if good else 'the automaton rejects `%s`: %s' % (' '.join(toks), why if not okk else 'accepted, but not through this production'))
 
+    # ... and no bracketed list is left without the optional comma: whatever alternative spells it, every production that
+    # ends in `L CLOSE` with L a comma-separated list accepts `... item , CLOSE` too
+    sep_lists = {}
+    for q_ in g.productions[1:]:
+        r_ = q_.rhs
+        if len(r_) >= 3 and r_[0] == q_.lhs and lm.token_texts.get(r_[1]) == {','}:
+            sep_lists[q_.lhs] = r_[1]
+        elif len(r_) >= 3 and r_[-1] == q_.lhs and lm.token_texts.get(r_[-2]) == {','}:
+            sep_lists[q_.lhs] = r_[-2]
+    n_closed = 0
+    for plain in g.productions[1:]:
+        if len(plain.rhs) < 2 or plain.rhs[-2] not in sep_lists or plain.index in raising:
+            continue
+        if next(iter(lm.token_texts.get(plain.rhs[-1]) or {''})) not in OPEN.values():
+            continue
+        L = plain.rhs[-2]
+        sep = sep_lists[L]
+        item = list_item_expansion(g, L, short)
+        if item is None:
+            chk.unrec(R4, 'skeleton for `%s`' % plain, g.module.rel, 'cannot find the item/separator shape of %s' % L)
+            continue
+        n_closed += 1
+        prefix = []
+        for s in plain.rhs[:-2]:
+            prefix += list(short[s]) if s in nts else [s]
+        pre, suf = ctxs.get(plain.lhs, ((), ()))
+        for n in range(1, maxn + 1):
+            body = []
+            for k in range(n):
+                if k:
+                    body.append(sep)
+                body += item
+            toks = list(pre) + prefix + body + [sep, plain.rhs[-1]] + list(suf)
+            okk, why, reduced = lalr.simulate(T, toks)
+            chk.require(okk, R4, 'closing `%s` after a trailing `%s`, n=%d' % (plain, sep, n), '%s:%d' % (g.module.rel, plain.line),
+                        'accepted: %s' % ' '.join(toks) if okk else 'the automaton rejects `%s`: %s - this construct has no trailing-comma form' % (' '.join(toks), why))
+    if n_closed < 3:
+        chk.notes.append('only %d bracketed comma lists found' % n_closed)
+
     # --------------------------------------------------------------------- R5
     groups = [p for p in g.productions[1:] if len(p.rhs) == 3 and lm.token_texts.get(p.rhs[0]) == {'('} and
               lm.token_texts.get(p.rhs[2]) == {')'} and p.rhs[1] == p.lhs]
